@@ -837,3 +837,49 @@ def target_not_rebound_by_truthiness(ck, rule, quals):
                            'one, and what the (recursive) merge puts there '
                            'is lost' % (fi.qual, p, A.short(s, 40)), s)
     return n
+
+
+def multi_update_collision_shape(ck, rule):
+    """deep_merge_multi_update keeps EVERY colliding value: a collision with
+    a value that is already a _multi_update wrapper appends to its list
+    (under exactly that test), any other collision wraps both values into a
+    new two-element list, old value first."""
+    f = ck.fn('deep_merge_multi_update', 'library.dict_utils')
+    cfg = cfg_of(f.node)
+    dct = A.params_of(f.node)[0]
+    apps = [c for c in A.calls_in(f.node, 'append')
+            if 'multi_update' in A.unparse(c.func).lower()]
+    ck.require(bool(apps), rule, f, f.node.name,
+               'a further collision is appended to the existing wrapper',
+               'deep_merge_multi_update no longer appends a third colliding '
+               'value to the _multi_update list: it is lost or nested')
+    for c in apps:
+        g = cfg.guards(cfg.node(c))
+        ok = any(a[0] == 'in' and 'MULTI_UPDATE_KEY' in str(a[1]) +
+                 str(a[2]) or a[0] == 'in' and "_multi_update" in str(a[1])
+                 for a in g) and any(
+            a[0] == 'isinstance' and 'dict' in str(a[2]) for a in g) and \
+            any(a[0] == 'in' and a[2] == dct for a in g)
+        ck.require(ok, rule, f, c,
+                   'the append happens exactly when the existing value is a '
+                   '_multi_update wrapper',
+                   'the append to the _multi_update list is guarded by %s '
+                   'instead of "key present, value is a dict that has the '
+                   '_multi_update key": a third update for a variable is '
+                   'nested inside the wrapper or replaces it' % sorted(g), c)
+    wraps = [s for s in A.walk_no_nested(f.node) if isinstance(s, ast.Assign)
+             and isinstance(s.value, ast.Dict) and len(s.value.keys) == 1 and
+             'multi_update' in A.unparse(s.value.keys[0]).lower()]
+    ck.require(bool(wraps), rule, f, f.node.name,
+               'a first collision wraps both values', None)
+    for s in wraps:
+        v = s.value.values[0]
+        ok = isinstance(v, ast.List) and len(v.elts) == 2 and \
+            dct in A.names_in(v.elts[0]) and dct not in A.names_in(v.elts[1])
+        g = cfg.guards(cfg.node(s))
+        ok = ok and any(a[0] == 'in' and a[2] == dct for a in g)
+        ck.require(ok, rule, f, s,
+                   'the wrapper lists the existing value, then the new one',
+                   'the _multi_update wrapper is built as %s (under %s): '
+                   'colliding updates are applied in the wrong order or one '
+                   'of them is dropped' % (A.unparse(v), sorted(g)), s)
